@@ -34,8 +34,8 @@ class Recorder:
 
 
 class _Raw(io.FileIO):
-    def __init__(self, rec, name, mode):
-        super().__init__(name, mode)
+    def __init__(self, rec, name, mode, opener=None):
+        super().__init__(name, mode, opener=opener)
         self._rec = rec
         self._nm = name
         rec.snap('open(%s,%s)' % (name, mode))
@@ -55,7 +55,7 @@ class _Raw(io.FileIO):
 def make_open(rec):
     def crash_open(file, mode='r', *a, **k):
         if ('w' in mode or 'a' in mode or '+' in mode) and isinstance(file, str):
-            raw = _Raw(rec, file, mode.replace('b', '').replace('t', ''))
+            raw = _Raw(rec, file, mode.replace('b', '').replace('t', ''), k.get('opener'))
             buf = io.BufferedWriter(raw, io.DEFAULT_BUFFER_SIZE)
             if 'b' in mode:
                 return buf
